@@ -266,7 +266,7 @@ def _stress_child(args):
     # spin until the barrier file appears: all children start together
     end = time.time() + 20
     while not os.path.exists(barrier_file) and time.time() < end:
-        pass
+        time.sleep(0.0002)
     try:
         t = P.parse(text, model_cache_folder=Path(folder), always_update_last_hit=(idx % 2 == 0))
         return ("ok", t is not None and dump(t) == fresh_dump(text))
@@ -427,7 +427,7 @@ def run(ctx):
     ctx.sample({"kind": "schedule (first steps)", "config": jobs[0][0], "steps": jobs[0][1][:10]})
     # stress
     nproc = 16 if thorough else 8
-    rounds = 25 if thorough else 4
+    rounds = 12 if thorough else 4
     sn = 0
     for c in [x for x in configs(False) if x["shared"] is False]:
         for k in range(rounds):
